@@ -16,8 +16,9 @@ CHECK_MODULE = "Check.C11Check"
 IMPORTS = ["Model.Objects", "Model.PodSpec", "Model.Backoff", "Model.ErsReconcile", "Model.EdsReconcile", "Check.World"]
 RULE = ("scenario corpus (first deployment, rolling update, canary start, promotion by validation, failure and rollback, node removal, "
         "settings change) on 3-4 nodes: the failure-free run is recorded; then the run is repeated with ONE fault at the k-th API "
-        "write issued by the reconciles, for k over the writes of the failure-free run (every k in the thorough tier, a stride "
-        "in the quick tier) and each fault kind (call rejected; call applied but answer lost; process stop before the write; "
+        "write issued by the reconciles, for k over the writes of the failure-free run (every k in the thorough tier, every third "
+        "with one kind in the quick tier) and - in both tiers - at every write of the ExtendedDaemonSet controller (status, "
+        "object update, replica-set creation and deletion: the multi-write protocols) with each fault kind (call rejected; call applied but answer lost; process stop before the write; "
         "process stop after the write - a fresh controller instance with empty memory takes over); thorough adds pairs of faults "
         "for the three shortest scenarios. Every reconcile step runs the safety monitors of C01, C03, C04, C05 and C12; then "
         "failure-free fair rounds run to rest, where the C02 monitors apply and the final pods and status are compared with the "
@@ -106,6 +107,10 @@ def mk_case(name, objs, prefix, fault, tail=TAIL):
 # writes of the failure-free prefix per scenario, measured once (upper bounds; a k beyond the run is a no-op)
 MAXK = {"first_deployment": 14, "rolling_update": 34, "canary_start": 24, "promotion": 40, "failure_rollback": 40,
         "node_removal": 30, "settings_change": 30}
+# writes of the ExtendedDaemonSet controller in the failure-free run (on the ExtendedDaemonSet, replica-set creation and
+# deletion): few, and each sits between two others of a multi-write protocol - all of them get all four fault kinds
+MAXCTL = {"first_deployment": 5, "rolling_update": 12, "canary_start": 8, "promotion": 13, "failure_rollback": 11,
+          "node_removal": 6, "settings_change": 7}
 KINDS = ["reject", "lost", "stop_before", "stop_after"]
 
 
@@ -117,11 +122,15 @@ def generate(rng, tier, stats):
         ks = range(1, MAXK[name] + 1)
         for k in ks:
             kinds = KINDS if tier != "quick" else [KINDS[(k + len(name)) % 4]]
-            if tier == "quick" and k % 2 == 0 and MAXK[name] > 20:
+            if tier == "quick" and k % 3 != 1:
                 continue
             for kind in kinds:
                 out.append(mk_case(name, objs, prefix, {"k": k, "kind": kind}))
                 wprop.bump(stats, "fault kind", kind)
+        for k in range(1, MAXCTL[name] + 1):
+            for kind in KINDS:
+                out.append(mk_case(name, objs, prefix, {"k": k, "kind": kind, "on": "control"}))
+                wprop.bump(stats, "fault kind (ExtendedDaemonSet controller write)", kind)
         wprop.bump(stats, "scenarios", name)
     return out
 
